@@ -272,6 +272,11 @@ def check_from(run_, F, sc, f, b, o, chain=()):
     for p in paths:
         if ab["kind"] == "Enum":
             k = p.tagfacts.get(("tag", ("init", ("P", src))))
+            if isinstance(k, tuple) and k and k[0] == "not":
+                # a chain of `if let` tests that all failed: the one variant that is left
+                rest = sorted(set(range(len(ab["variants"]))) - set(k[1]))
+                if len(rest) == 1:
+                    k = rest[0]
             if not isinstance(k, int):
                 run_.bad("F", "%s arm ?" % o, "a path does not dispatch on the source variant", f.where())
                 continue
@@ -307,7 +312,7 @@ def check_from(run_, F, sc, f, b, o, chain=()):
 
 
 ALLOWED = ("Into::into", "From::from", "Box::<T>::new", "Iterator::map", "Iterator::collect", "<impl [T]>::iter", "IntoIterator::into_iter", "Iterator::copied",
-           "Iterator::cloned")
+           "Iterator::cloned", "Vec::<T, A>::into_boxed_slice", "Vec::<T>::into_boxed_slice")      # same elements, same order
 
 
 def provenance(F, sc, p, v, depth=0, convs=()):
@@ -328,7 +333,7 @@ def provenance(F, sc, p, v, depth=0, convs=()):
                 return None, "conversion %s called with %d arguments" % (key, len(v[3]))
             return provenance(F, sc, p, v[3][0], depth + 1, convs)
         if not any(key.endswith(a) or a in key for a in ALLOWED):
-            return None, "passes through %s (only into/Box::new/iter/map/collect are structure-preserving)" % key
+            return None, "passes through %s (only into/Box::new/iter/map/collect/into_boxed_slice are structure-preserving)" % key
         if "Iterator::map" in key:
             c = v[3][1]
             while c[0] == "cast" and isinstance(c[2], tuple) and c[2]:
